@@ -11,7 +11,11 @@ Lines
   <keys>   `none` | `K` + comma separated hex keys (`-` = b""), `K` alone = []
   <expect> ground truth of the *builder* (ignored by the Lean driver): `-` = no claim, else the admissible answers joined by `|`,
            blanks replaced by `_`.  The oracle compares the real library's answer with it.
-Answer:  ok <xorkey> <xorencoded T|F> <len>.<ck of config_block> <n> (<index>:<type>:<length>:<B|D>:<value>)*   |  exc <E>
+Answer:  ok <xorkey> <xorencoded T|F> <len>.<ck of config_block> <n> (<index>:<type>:<length>:<B|D>:<value>)*
+            [guard <payload_xor_key> <beacon_config_offset> <guard_config_offset> <checksum>]   |  exc <E>
+         (the `guard …` suffix when `bconfig.guardrails` is set: Guardrails recovery)
+The Lean side of `ext` runs `C01.fromFileReal`: detector, both search phases, computed residual key order, Guardrails fallback —
+the function the end-to-end theorems of Props/C01.lean are stated about.
 """
 from __future__ import annotations
 
@@ -29,7 +33,8 @@ ID = "C01"
 DRIVER = "drv_c01"
 GEN = ["extract", "beacon"]
 STREAMS = {
-    "ext": {"relevant": True, "desc": "BeaconConfig.from_bytes / from_file / from_path: xorkey, xorencoded, config_block, settings_tuple or exception"},
+    "ext": {"relevant": True, "desc": "BeaconConfig.from_bytes / from_file / from_path vs C01.fromFileReal (detector, search, retry, Guardrails fallback): "
+                                      "xorkey, xorencoded, config_block, settings_tuple, Guardrails record or exception"},
     "extpi": {"relevant": False, "desc": "all-keys mode with candidates under several residual keys: the winner depends on the exact "
                                          "residual key order (4-gram counter), which the property text leaves open"},
     "spec": {"relevant": True, "desc": "the same call compared with the declarative specification extractSpec (right-hand side of extract_first)"},
@@ -39,8 +44,11 @@ STREAMS = {
 TRUSTED = [
     "tools/harness/c01.py (payload builder = ground truth, generators, adapters); line protocol parsing in lean/CsVerif/Driver/C01.lean",
     "tools/gen/extract.py (DEFAULT_XOR_KEYS from the module; PATCH_SIZE / CONFIG_HEADER from find_beacon_config_bytes.__code__)",
-    "the answer of XorEncodedFile.from_file is a parameter of the theorems (`det`); the driver computes it with the C09/C15 models "
-    "(C01.detectRun); the Guardrails fallback is a parameter (`guard`, C17); PE artifacts attached by from_file are not compared (C18)",
+    "the parameterised theorems take the answer of XorEncodedFile.from_file (`det`), the residual key order and the Guardrails outcome as "
+    "parameters; the end-to-end theorems and the driver use C01.fromFileReal, which computes them (C01.detectRun = C09.fromFileReal, "
+    "C01.leftKeys, C17.fromFileFallback); the Guardrails scan of a detected stage runs on the decoded bytes as an ordinary file "
+    "(C09 history_refines_all_seeks; exercised here by Guardrails areas inside XorEncoded stages); PE artifacts attached by from_file are "
+    "not compared (C18)",
     "collections.Counter / most_common / list.sort(key=) / itertools.zip_longest are modelled (C01.leftKeys), exercised by the `left` stream; "
     "the theorems hold for every residual key order",
 ]
@@ -49,7 +57,7 @@ ASSUMPTIONS = [
     "a successful XorEncoded detection at nonce offset c implies c + 8 <= file size (hypothesis of the theorems)",
     "generators consumed only up to the first yield behave as the prefix of the fully consumed run (from_file does not resume the generator)",
 ]
-RULE = ("builder grid: settings block x key x container (raw, PE-like, XorEncoded stage) x offset (0, 1, around k*B, cut by EOF) x filler x "
+RULE = ("builder grid: settings block x key x container (raw, PE-like, XorEncoded stage, Guardrails-protected area) x offset (0, 1, around k*B, cut by EOF) x filler x "
         "decoys x key list x entry point x buffer size; distinct = hash of (stream, line); non-trivial = a configuration was returned "
         "from a non-default situation (non-first key, XorEncoded view, all-keys retry, offset not 0) or a decoy had to be ignored")
 
@@ -376,6 +384,83 @@ def build_case(rng, *, key: bytes, keys, ak: bool, container: str, off: int, tot
     if container == "xbad":
         return raw, [(False, raw)]
     return raw, [(True, view), (False, raw)]
+
+
+
+# --------------------------------------------------------------------------------------------------
+# Guardrails-protected areas (independent builder: inverse of the recovery code, no library call)
+# --------------------------------------------------------------------------------------------------
+
+GBS, GGS = 6144, 2048
+
+
+def gcks(data: bytes) -> int:
+    """payload checksum: bytes weighted 1,2,3 cycling (far below the modulus 99999999 for 6144 bytes)"""
+    s = sum(data[0::3]) + 2 * sum(data[1::3]) + 3 * sum(data[2::3])
+    assert s < 99999999
+    return s
+
+
+def guard_area(rng, key: bytes, delta=0, nset=None):
+    """(cfg, area, stored): 6144-byte configuration masked with `key` then 0x2e, followed by the 2048-byte guard configuration
+    (GUARD_COMPUTER hash, GUARD_PAYLOAD_CHECKSUM = checksum(cfg) + 1 + delta) masked with 0x8a and the reversed masked area"""
+    cfg = cfg_block(rng, GBS, nset if nset is not None else rng.choice([1, 2, 5, 12]), "zero")
+    stored = gcks(cfg) + 1 + delta
+    gs = struct.pack(">HHH", 6, 1, 2) + C.rbytes(rng, 2) + struct.pack(">HHHI", 9, 2, 4, stored) + b"\x00\x00"
+    gc = (gs + C.rbytes(rng, GGS))[:GGS]
+    mb = bxor(bxor(cfg, key), b"\x2e")
+    mg = bytes(a ^ b for a, b in zip(bxor(gc, b"\x8a"), mb[::-1]))
+    return cfg, mb + mg, stored
+
+
+def guard_key(rng) -> bytes:
+    """environmental key: 2..16 distinct non-zero bytes (aperiodic, no runs)"""
+    return bytes(rng.sample(range(1, 256), rng.choice([2, 3, 5, 8, 15, 16])))
+
+
+def guard_answer(cfg: bytes, key: bytes, bco: int, stored: int) -> str:
+    return render(b"\x2e", False, cfg, ref_decode(cfg)) + f" guard {C.hx(key)} {bco} {bco + GBS} {stored}"
+
+
+def build_guard_case(rng, *, container: str, keys, ak: bool, delta=0, plain_block=None):
+    """(data, expected answer).  container raw | xs (Guardrails area inside the decoded content of a XorEncoded stage).
+    plain_block = key of an ordinary configuration block planted as well (it wins: the fallback is not reached)."""
+    tk = tried_keys(keys, ak)
+    for _attempt in range(50):
+        key = guard_key(rng)
+        cfg, area, stored = guard_area(rng, key, delta)
+        head = pe_image(rng, 700) if container == "xs" else bytearray()
+        pre = mk_filler(rng, rng.choice([0, 1, 37, 700, 2500]), rng.choice(["zero", "random", "runs"]))
+        post = mk_filler(rng, rng.choice([0, 5, 300]), rng.choice(["zero", "random"]))
+        if container == "raw":
+            no_marker(pre)
+        scrub(pre, tk, rng)
+        scrub(post, tk, rng)
+        view = bytearray(head) + pre
+        bco = len(view)
+        view += area + post
+        exp = guard_answer(cfg, key, bco, stored) if delta == 0 else "exc ValueError"
+        if plain_block is not None:
+            off = len(view)
+            blk = bxor(cfg_block(rng, 128, 2, "zero"), plain_block)
+            view += blk + bytes(9)
+        view = bytes(view)
+        if container == "raw":
+            data, views = view, [(False, view)]
+            if b"\xff\xff\xff" in data[:SAFE + 3]:
+                continue
+        else:
+            data = xor_stage(rng, view, rng.choice([0, 5, 64, 300]), marker=False, good_size=True)
+            views = [(True, view), (False, data)]
+        c = first_candidate(views, tk)
+        if plain_block is None:
+            if c is not None:
+                continue     # an accidental header under a tried key inside the masked area: not this case
+            return data, exp
+        if c is None or c[3] != off:
+            continue
+        return data, answer_for(*c)
+    raise AssertionError("could not build a clean Guardrails case")
 
 
 # --------------------------------------------------------------------------------------------------
@@ -709,6 +794,20 @@ def gen(tier, rng, shard, nshards):
         keys = rng.choice([None, None, [b"\x11"], [b"\x22", b"\xab", b"\x00\x00"], [bytes([x]) for x in range(0, 256, 2)], ALL_SINGLE])
         yield "left", f"left {rng.choice('bf')} {B} {fmt_keys(keys)} {C.hx(data)}"
 
+    # ---- 12. Guardrails-protected payloads: the fallback of from_file (recovered configuration, environmental key, offsets), inside a
+    #          XorEncoded stage (scan on the view), beaten by an ordinary block, corrupted checksum -> ValueError, all-keys retry first
+    for rep in range(6 if thorough else 1):
+        for container, keys, ak, delta, pb in [("raw", None, False, 0, None), ("xs", None, False, 0, None),
+                                               ("raw", [b"\x41", b"\x00"], False, 0, None), ("raw", None, True, 0, None),
+                                               ("raw", None, False, rng.choice([1, -1, 7]), None), ("xs", None, False, 3, None),
+                                               ("raw", None, False, 0, rng.choice(DEFAULT_KEYS)), ("xs", None, False, 0, b"\x2e")]:
+            if not mine():
+                continue
+            if ak and not thorough and rep > 0:
+                continue
+            data, exp = build_guard_case(rng, container=container, keys=keys, ak=ak, delta=delta, plain_block=pb)
+            yield "ext", ext_line(entry(), rng.choice([8192, 8192, 16384]), ak, keys, data, exp)
+
 
 # --------------------------------------------------------------------------------------------------
 # adapters to the real library
@@ -770,7 +869,9 @@ def impl(stream, line):
                 finally:
                     os.unlink(path)
         if bc.guardrails is not None:
-            return "guardrails-recovery"
+            m = bc.guardrails
+            pk = "none" if m.payload_xor_key is None else C.hx(bytes(m.payload_xor_key))
+            return _render_impl(bc) + f" guard {pk} {int(m.beacon_config_offset)} {int(m.guard_config_offset)} {int(m.checksum)}"
         return _render_impl(bc)
     if stream == "blocks":
         kind, B, xd, ak, keys, data = w[1], int(w[2]), w[3] == "T", w[4] == "T", parse_keys(w[5]), C.unhx(w[6])
